@@ -27,7 +27,8 @@
 From Coq Require Import List Ascii String Bool Arith PrimFloat.
 From Verif Require Import Base.Result Base.Str Base.Sexp Base.PyDict Base.Float
   Model.Tokenizer Model.Types Model.Domain Model.Exec Model.ChangeSignature Model.ChangeSignatureAlpha
-  Spec.Pddl Spec.Grammar Spec.Rename Proofs.C18_Check Proofs.C18_Seq Corr.Common Corr.Core Corr.C18Flag.
+  Spec.Pddl Spec.Grammar Spec.Rename Proofs.C18_Check Proofs.C18_Seq Proofs.C18_ParsedDomain Proofs.C18_NumOk
+  Corr.Common Corr.Core Corr.C18Flag.
 Import ListNotations.
 Open Scope string_scope.
 Open Scope list_scope.
@@ -330,7 +331,10 @@ Definition judge (c : rcase) : list verdict :=
                       | _ => false end &&
                       (* every case the oracle judges lies inside the theorem: the side condition of C18_rename
                          (of C18_rename_seq for several calls) holds at every step *)
-                      (negb adm || ok_seq d a ms)
+                      (negb adm || ok_seq d a ms) &&
+                      (* ... and inside C18_rename_parsed_domain: the two hypotheses on the text and on the float() table are
+                         decided here (Proofs.C18_NumOk.num_okb_sound, Proofs.C18_ParsedDomain.funcs_heads_okb_sound) *)
+                      (negb adm || (num_okb (r_nums c) && match es with Ok e => funcs_heads_okb e | Err _ => false end))
                   | None => false end;
        v_ok := negb judged ||
                match sa with
